@@ -369,7 +369,8 @@ class HistogramDensityMethod(BatchDetector):
         self.total_epsilon = 0
 
         if self.detect_batch == 1:
-            self.update(test_proxy)
+            # as an array: the proxy batch must not install column names the user never gave
+            self.update(test_proxy.to_numpy())
 
     def _build_histograms(self, dataset, min_values, max_values):
         """
